@@ -14,6 +14,7 @@ Vocabulary
 """
 from __future__ import annotations
 
+import hashlib
 import itertools
 import json
 import multiprocessing as mp
@@ -42,6 +43,23 @@ def read_tables(parser):
 def freeze(obj):
     """Canonical JSON text of a JSON-able value (used for snapshots and hashing)."""
     return json.dumps(obj, sort_keys=True, default=str)
+
+
+def digest(obj):
+    """8-byte fingerprint of a JSON-able value (for counting distinct cases across worker processes)"""
+    return hashlib.blake2b(freeze(obj).encode(), digest_size=8).digest()
+
+
+def reachable(T, m):
+    """m and every particle with a table that occurs below m"""
+    seen, stack = {m}, [m]
+    while stack:
+        for ln in T.get(stack.pop(), []):
+            for x in ln["fs"]:
+                if x in T and x not in seen:
+                    seen.add(x)
+                    stack.append(x)
+    return seen
 
 
 # ----------------------------------------------------------------------------------------------------------
@@ -276,7 +294,7 @@ def split_row(row):
 
 
 def check_table_output(lines, photos, out_text, print_model, display_photos_keyword, ascending, normalize, scale):
-    """Compare captured stdout with the specified rows. Returns (ok, what, n_fallback)."""
+    """Compare captured stdout with the specified rows. Returns (ok, clause, what, n_fallback)."""
     bfs = [ln["bf"] for ln in lines]
     order = row_order(bfs, ascending)
     norm, norm_exact = norm_of(bfs, normalize, scale)
@@ -284,21 +302,23 @@ def check_table_output(lines, photos, out_text, print_model, display_photos_keyw
     if got_rows and got_rows[-1] == "":
         got_rows.pop()
     if len(got_rows) != len(lines):
-        return False, f"{len(got_rows)} rows printed for {len(lines)} decay lines", 0
+        return False, "rows.count", f"{len(got_rows)} rows printed for {len(lines)} decay lines", 0
     nfb = 0
     for pos, i in enumerate(order):
         toks = split_row(got_rows[pos])
         want_rest = row_tokens(lines[i], photos[i], print_model, display_photos_keyword)
         if not toks:
-            return False, f"row {pos} is empty", nfb
+            return False, "rows.content", f"row {pos} is empty", nfb
         ok, fb = value_token_ok(toks[0], bfs[i], norm, norm_exact)
         nfb += fb
         if toks[1:] != want_rest:
-            return False, (f"row {pos}: expected line #{i} {[fmt7(bfs[i] / norm)] + want_rest}, printed {toks}"), nfb
+            direction = "ascending" if ascending else "descending"
+            return False, "rows.order_content", (f"row {pos} ({direction}): expected line #{i} "
+                                                 f"{[fmt7(bfs[i] / norm)] + want_rest}, printed {toks}"), nfb
         if not ok:
-            return False, (f"row {pos} (line #{i}): value shown {toks[0]!r}, expected {fmt7(bfs[i] / norm)!r} "
-                           f"(bf {bfs[i]!r} / norm {norm!r})"), nfb
-    return True, "", nfb
+            return False, "value", (f"row {pos} (line #{i}): value shown {toks[0]!r}, expected {fmt7(bfs[i] / norm)!r} "
+                                    f"(bf {bfs[i]!r} / norm {norm!r})"), nfb
+    return True, "rows", "", nfb
 
 
 # ----------------------------------------------------------------------------------------------------------
@@ -509,8 +529,9 @@ def wide_family():
     """deterministic hand-shaped sets beyond the small scopes: 3-5 daughters, 4-6 lines, depth 4, repetitions"""
     fam = []
     # depth-4 ladder with repeated daughters and wide lines
-    fam.append(([["P4", [["P3", "P3", "x"], ["P2", "x", "P3", "y"], ["x", "y", "z", "x", "y"], ["P0"], ["P1", "P1", "P1"]]],
-                 ["P3", [["P2", "P2"], ["x", "P2", "y", "P1"], ["z"]]],
+    # (path counts 2, 5, 46, 277, 2067)
+    fam.append(([["P4", [["P3", "P0", "x"], ["P1", "x", "P3", "y"], ["x", "y", "z", "x", "y"], ["P0"], ["P1", "P1", "P1"]]],
+                 ["P3", [["P2", "x"], ["x", "P2", "y", "P1"], ["z"]]],
                  ["P2", [["P1", "x", "P1"], ["y", "y"], ["P0", "P1", "P0", "x"]]],
                  ["P1", [["P0", "P0"], ["x"]]],
                  ["P0", [["x", "y"], ["z", "z", "z"]]]], []))
